@@ -4,8 +4,11 @@ from __future__ import annotations
 
 import io
 import json
+import os
 import re
+import tempfile
 import threading
+import time
 
 from hypothesis import strategies as st
 
@@ -29,7 +32,8 @@ TECHNIQUE = 'systematic schedule exploration with a harness-owned deterministic 
 RULE = (
     "case = (1-2 writer threads, each a list of critical sections `with tree:` of 2-3 mutation steps whose "
     "intermediate states are distinguishable from every committed state (paired nodes, clear+rebuild, add+move), "
-    "optionally nesting `with tree:` and calling snapshot operations inside; 1-3 reader threads calling save, copy, "
+    "optionally nesting `with tree:` and calling snapshot operations inside; 1-3 reader threads calling save (to a "
+    "stream and to a file path), copy, "
     "copy(predicate), filtered, copy_to, to_dict_list(mapper), to_dotfile(stream, node_mapper), `with tree:`+iterate; "
     "a schedule = list of ints). Oracle: every snapshot, decoded to a shape, equals a committed state S_j with "
     "commits-at-call-start <= j <= commits-at-return; no deadlock, no hang; no exception. Exhaustive part: ALL "
@@ -45,7 +49,7 @@ ASSUMPTIONS = [
 ]
 EXHAUSTIVE_NOTE = {"quick": "all schedules of a pair section x each of 8 snapshot operations, of a rebuild section x {to_dict_list, save} and of a typed pair section x save (evidence classes say whether a limit was hit)", "thorough": "all schedules of {pair, rebuild, move} section x each of 8 snapshot operations, plus 2-section writers"}
 
-READER_OPS = ["save", "copy", "copy_pred", "filtered", "copy_to", "to_dict_list", "to_dotfile", "with+iterate"]
+READER_OPS = ["save", "copy", "copy_pred", "filtered", "copy_to", "to_dict_list", "to_dotfile", "with+iterate", "save_path"]
 SECTIONS = ["pair", "rebuild", "move"]
 
 
@@ -152,11 +156,25 @@ DOT_EDGE = re.compile(r'^  (\S+) -> (\S+)(?: \[label="([^"]*)"\])?')
 
 def do_reader_op(tree, op):
     """-> decoded shape"""
-    if op == "save":
-        buf = io.StringIO()  # json.dump() writes after the lock is released: no yield points needed there
+    if op in ("save", "save_path"):
         yield_point("before-save")
-        tree.save(buf)
-        doc = json.loads(buf.getvalue())
+        if op == "save":
+            buf = io.StringIO()  # json.dump() writes after the lock is released: no yield points needed there
+            tree.save(buf)
+            doc = json.loads(buf.getvalue())
+        else:
+            # a path target (each call its own file): whatever else save() synchronises on must not deadlock either
+            fd, path = tempfile.mkstemp(prefix="verif_c18_", suffix=".nutree")
+            os.close(fd)
+            try:
+                tree.save(path)
+                with open(path, encoding="utf8") as fp:
+                    doc = json.load(fp)
+            finally:
+                try:
+                    os.unlink(path)
+                except OSError:
+                    pass
         nodes = [None]
         top = []
         kids = {0: top}
@@ -340,6 +358,7 @@ def run_real(case, rec):
             x = tree.add("wa")
             in_section.set()
             reader_started.wait(5)
+            time.sleep(0.05)  # let the reader reach the point at which it has to wait for the owner
             with tree:  # re-entrant
                 do_reader_op(tree, case["inner"])  # must not deadlock
             for _ in range(case.get("spin", 50)):
@@ -358,8 +377,9 @@ def run_real(case, rec):
     to, tr = threading.Thread(target=owner, daemon=True), threading.Thread(target=reader, daemon=True)
     to.start()
     tr.start()
-    to.join(300)
-    tr.join(300)
+    # generous: a loaded machine must not turn into a deadlock report (the operations take milliseconds)
+    to.join(120)
+    tr.join(30)
     rec.evals += 1
     rec.nt(True)
     rec.cls(f"op={op}")
@@ -410,6 +430,6 @@ def hyp_cases(draw, tier):
 
 PARTS = [
     Part("all-schedules", run_exhaustive, enum=enum_cases, watchdog=3600),
-    Part("random-programs", run_random, strategy=hyp_cases, n={"quick": 100, "thorough": 20000}),
-    Part("real-lock", run_real, enum=real_cases),
+    Part("random-programs", run_random, strategy=hyp_cases, n={"quick": 100, "thorough": 20000}, watchdog=600),
+    Part("real-lock", run_real, enum=real_cases, watchdog=600),
 ]
